@@ -220,7 +220,9 @@ def make_backend(kind, scratch):
 
 
 def apply_op(ps, op, objs, memo):
-    """-> 'ok' | 'clash' | 'unser' | 'missing' | 'fault' ; anything else propagates"""
+    """-> 'ok' | 'clash' | 'unser' | 'missing' | 'fault' | 'recursion' ; anything else propagates.
+    'recursion': the identity check `o is not self.storage[id]` (or a load) ran into a self-referencing document
+    (known finding dup-id-in-transaction / overwrite-creates-cycle); raised before anything is written."""
     try:
         if op['op'] == 'clear':
             ps.clear()
@@ -237,7 +239,7 @@ def apply_op(ps, op, objs, memo):
         return 'fault'
     except RuntimeError as e:
         if isinstance(e, RecursionError):
-            raise
+            return 'recursion'
         return 'clash'
     except TypeError as e:
         if 'JSON serializable' in str(e):
